@@ -226,10 +226,13 @@ theorem stmt_head {ph x} {pts : List PTok} (h : Block ph (toks pts) x) (hph : ph
   · obtain ⟨p, r', rfl, hpt, -⟩ := toks_eq_cons h1
     exact ⟨p, r', rfl, hpt ▸ ht⟩
 
+/-- The token string begins with a gate name (so it is a gate statement, if it is a statement). -/
+def GateHead (ts : List Tok) : Prop := ∃ g r, ts = .IDENTIFIER g :: r
+
 def Complete : Ph → List Tok → Sx → Prop
-  | .seqStmt, ts, x => ∀ (pts rest : List PTok) (n : Nat), toks pts = ts → Follow rest → 2 * ts.length ≤ n →
+  | .seqStmt, ts, x => ∀ (pts rest : List PTok) (n : Nat), toks pts = ts → (GateHead ts → Follow rest) → 2 * ts.length ≤ n →
       pSeqStmt n (pts ++ rest) = .ok (x, rest)
-  | .parStmt, ts, x => ∀ (pts rest : List PTok) (n : Nat), toks pts = ts → Follow rest → 2 * ts.length ≤ n →
+  | .parStmt, ts, x => ∀ (pts rest : List PTok) (n : Nat), toks pts = ts → (GateHead ts → Follow rest) → 2 * ts.length ≤ n →
       pParStmt n (pts ++ rest) = .ok (x, rest)
   | .gateBlock, ts, x => ∀ (pts rest : List PTok) (n : Nat), toks pts = ts → 2 * ts.length ≤ n →
       pGateBlock n (pts ++ rest) = .ok (x, rest)
@@ -331,7 +334,7 @@ theorem block_complete {ph ts x} (h : Block ph ts x) : Complete ph ts x := by
       | zero => simp at hn
       | succ n =>
         rw [pSeqStmt.eq_def]
-        simp only [List.cons_append, hpt, pGateArgs_complete has hr hf.argStop, sxGate]
+        simp only [List.cons_append, hpt, pGateArgs_complete has hr (hf ⟨g, as, rfl⟩).argStop, sxGate]
   | @seqPar ts x hb ih =>
     intro pts rest n hp hf hn
     cases n with
@@ -388,7 +391,7 @@ theorem block_complete {ph ts x} (h : Block ph ts x) : Complete ph ts x := by
       | zero => simp at hn
       | succ n =>
         rw [pParStmt.eq_def]
-        simp only [List.cons_append, hpt, pGateArgs_complete has hr hf.argStop, sxGate]
+        simp only [List.cons_append, hpt, pGateArgs_complete has hr (hf ⟨g, as, rfl⟩).argStop, sxGate]
   | @parSeq ts x hb ih =>
     intro pts rest n hp hf hn
     cases n with
@@ -415,7 +418,7 @@ theorem block_complete {ph ts x} (h : Block ph ts x) : Complete ph ts x := by
     | succ n =>
       refine ⟨[x], rfl, ?_⟩
       obtain ⟨p, r, rfl, hstart⟩ := stmt_head (hp ▸ hs) (by decide)
-      have hres := ih (p :: r) (q :: rest) n hp (by simp [Follow, hq]) (by omega)
+      have hres := ih (p :: r) (q :: rest) n hp (fun _ => by simp [Follow, hq]) (by omega)
       rw [pSeqStmts.eq_def]
       simp only [List.cons_append] at hres ⊢
       simp only [(isStart_facts hstart).1, if_false, hres, hq, if_true]
@@ -440,7 +443,7 @@ theorem block_complete {ph ts x} (h : Block ph ts x) : Complete ph ts x := by
           simp only [List.cons_append, Follow]
           simp only [isSeqSep, Bool.or_eq_true, decide_eq_true_eq] at hqs
           rcases hqs with h | h <;> simp [h]
-        have hres := ih1 (p :: r) (qs :: psep' ++ prest ++ q :: rest) n hps hfol (by omega)
+        have hres := ih1 (p :: r) (qs :: psep' ++ prest ++ q :: rest) n hps (fun _ => hfol) (by omega)
         have hne : qs.tok ≠ .rbrace := by
           simp only [isSeqSep, Bool.or_eq_true, decide_eq_true_eq] at hqs
           rcases hqs with h | h <;> simp [h]
@@ -471,7 +474,7 @@ theorem block_complete {ph ts x} (h : Block ph ts x) : Complete ph ts x := by
     | succ n =>
       refine ⟨[x], rfl, ?_⟩
       obtain ⟨p, r, rfl, hstart⟩ := stmt_head (hp ▸ hs) (by decide)
-      have hres := ih (p :: r) (q :: rest) n hp (by simp [Follow, hq]) (by omega)
+      have hres := ih (p :: r) (q :: rest) n hp (fun _ => by simp [Follow, hq]) (by omega)
       rw [pParStmts.eq_def]
       simp only [List.cons_append] at hres ⊢
       simp only [(isStart_facts hstart).2.1, if_false, hres, hq, if_true]
@@ -496,7 +499,7 @@ theorem block_complete {ph ts x} (h : Block ph ts x) : Complete ph ts x := by
           simp only [List.cons_append, Follow]
           simp only [isParSep, Bool.or_eq_true, decide_eq_true_eq] at hqs
           rcases hqs with h | h <;> simp [h]
-        have hres := ih1 (p :: r) (qs :: psep' ++ prest ++ q :: rest) n hps hfol (by omega)
+        have hres := ih1 (p :: r) (qs :: psep' ++ prest ++ q :: rest) n hps (fun _ => hfol) (by omega)
         have hne : qs.tok ≠ .gt := by
           simp only [isParSep, Bool.or_eq_true, decide_eq_true_eq] at hqs
           rcases hqs with h | h <;> simp [h]
@@ -779,7 +782,7 @@ theorem cases_noSeqHead {cs xs} (h : Cases cs xs) {pcs : List PTok} (hp : toks p
     simp [NoSeqHead, isSeqSep, hp']
 
 theorem body_complete {s x} (h : Body s x) {pts : List PTok} (hp : toks pts = s) {rest : List PTok}
-    (hf : TopFollow rest) {n : Nat} (hn : 2 * s.length + 1 ≤ n) :
+    (hf : GateHead s → Follow rest) {n : Nat} (hn : 2 * s.length + 1 ≤ n) :
     pTopStmt n (pts ++ rest) = .ok (.body x, rest) := by
   cases n with
   | zero => simp at hn
@@ -788,7 +791,7 @@ theorem body_complete {s x} (h : Body s x) {pts : List PTok} (hp : toks pts = s)
   | stmt hb =>
     obtain ⟨t, r, rfl, ht⟩ := seqStmt_head hb
     obtain ⟨p, r', rfl, hpt, hr⟩ := toks_eq_cons hp
-    have := block_complete hb (p :: r') rest n hp hf.follow (by omega)
+    have := block_complete hb (p :: r') rest n hp hf (by omega)
     simp only [List.cons_append] at this ⊢
     rw [pTopStmt_seqStart (hpt ▸ ht), this]
   | seqBlock hb =>
@@ -881,7 +884,7 @@ theorem pTop_complete {ph ts xs} (h : Stmts ph ts xs) : ∀ (pts : List PTok) (n
     | succ n =>
       obtain ⟨t, r, hs, -⟩ := body_head hb
       obtain ⟨p, r', rfl, -, -⟩ := toks_eq_cons (hs ▸ hp)
-      have := body_complete hb hp (rest := []) trivial (n := n) (by omega)
+      have := body_complete hb hp (rest := []) (fun _ => trivial) (n := n) (by omega)
       simp only [List.append_nil] at this
       simp [pTop, this, topAction]
   | @consHeader s x sep rest xs hh hsep hrest ih =>
@@ -934,7 +937,7 @@ theorem pTop_complete {ph ts xs} (h : Stmts ph ts xs) : ∀ (pts : List PTok) (n
           rw [← hpsep]; simp only [toks, List.map_cons, List.mem_cons]; exact Or.inr ht)
         have hlen : s.length + (sep.length + rest.length) = (s ++ sep ++ rest).length := by simp
         have hsl : 1 ≤ sep.length := by rw [← hpsep]; simp [toks]
-        have := body_complete hb hps (rest := qs :: (psep' ++ prest)) hqs (n := n) (by omega)
+        have := body_complete hb hps (rest := qs :: (psep' ++ prest)) (fun _ => TopFollow.follow (rest := qs :: (psep' ++ prest)) hqs) (n := n) (by omega)
         have e : p :: r' ++ qs :: psep' ++ prest = p :: (r' ++ qs :: (psep' ++ prest)) := by simp
         rw [e]
         simp only [List.cons_append] at this
